@@ -168,6 +168,31 @@ def pairs(xs):
 # implementation side
 
 
+_TRUTH_CLASSES = {}
+
+
+def truth_classes():
+    """Agent subclasses with a truth value: `b` answers bool() through __bool__, `l` through __len__ (a depot with a stock, a
+    household with members).  An agent of the protocol is a plain mesa.Agent until its first `truth` line."""
+    if not _TRUTH_CLASSES:
+        mesa, _ = _mesa()
+
+        class FlagAgent(mesa.Agent):
+            alive = True
+
+            def __bool__(self):
+                return self.alive
+
+        class StockAgent(mesa.Agent):
+            stock = 1
+
+            def __len__(self):
+                return self.stock
+
+        _TRUTH_CLASSES.update(b=FlagAgent, l=StockAgent)
+    return _TRUTH_CLASSES
+
+
 class GridImpl:
     def __init__(self, kind, w, h, torus, layers, cutoff, nag):
         mesa, space = _mesa()
@@ -220,7 +245,7 @@ class GridImpl:
 
     def empty_cells(self):
         """empty cells by inspection of the contents (does NOT read grid.empties)"""
-        return [(x, y) for (x, y) in self.cells_order if not self.grid._grid[x][y]]
+        return [(x, y) for (x, y) in self.cells_order if not self.ids(self.grid._grid[x][y])]
 
     # one protocol line -------------------------------------------------------------------
     def line(self, w):
@@ -299,6 +324,19 @@ class GridImpl:
             return "ok " + fmt_cell(v), v
         if k == "dump":
             return self.fmt_dump(self.snap()), None
+        if k == "truth":
+            # the agent object gets a truth value of its own: `truth a b V` -> __bool__ returns bool(V), `truth a l N` -> __len__
+            # returns N.  It stays the same object (same cell, same pos); only bool(agent) changes.
+            a, kind, v = A[int(w[1])], w[2], int(w[3])
+            if kind not in ("b", "l") or v < 0 or (kind == "b" and v > 1):
+                return "bad-op", None
+            a.__class__ = truth_classes()[kind]
+            if kind == "b":
+                a.alive = bool(v)
+            else:
+                a.stock = v
+            assert bool(a) == (v != 0)
+            return "ok", None
         if k == "geti":
             v = [self.ids(c) for c in g[int(w[1])]]
             return sp(" ".join(fmt_cell(c) for c in v)), v
@@ -543,7 +581,7 @@ def mte_script(R, impl):
         return [R.randrange(100) for _ in range(R.randint(0, 2))]
     if n > math.floor(impl.grid.cutoff_empties):
         s = []
-        occ = [(x, y) for (x, y) in impl.cells_order if impl.grid._grid[x][y]]
+        occ = [(x, y) for (x, y) in impl.cells_order if impl.ids(impl.grid._grid[x][y])]
         for _ in range(R.choice([0, 0, 1, 2, 4])):
             if occ and R.random() < 0.6:
                 o = R.choice(occ)  # an attempt that hits an occupied cell: the loop draws again
@@ -1051,6 +1089,39 @@ def exhaustive_c08_grid():
 RADII = [1, 1, 1, 2, 2, 3, 4, 7]
 
 
+def gen_truth(R, a):
+    """agent a gets a truth value: falsy two times out of three (through __bool__ or an empty __len__)"""
+    return f"truth {a} " + R.choice(["b 0", "b 0", "l 0", "l 0", "b 1", "l 3"])
+
+
+def truth_scenarios_c09():
+    """every agent query on small grids of the four classes whose agents are falsy objects (through __bool__ / __len__ == 0),
+    truthy ones with a length, or plain; then the same queries after the truth values are flipped"""
+    out = []
+    for kind in KINDS:
+        hexk, multi = kind.startswith("hex"), kind in ("multi", "hexmulti")
+        for torus in (False, True):
+            w, h = (4, 3) if hexk else (3, 3)
+            lines = [grid_header(kind, w, h, torus, False, 5), "place 0 0 0", "place 1 1 1", "place 2 2 1",
+                     "place 3 1 1" if multi else "place 3 1 2", "place 4 0 2",
+                     "truth 0 b 0", "truth 1 l 0", "truth 2 l 2", "truth 3 b 1"]
+            qs = []
+            for x in range(w):
+                for y in range(h):
+                    for ic in (0, 1):
+                        for r in (1, 2):
+                            if hexk:
+                                qs += [f"hnbrs {x} {y} {ic} {r}", f"ihnbrs {x} {y} {ic} {r}"]
+                            else:
+                                qs += [f"nbrs {x} {y} {m} {ic} {r}" for m in (0, 1)] + [f"inbrs {x} {y} 1 {ic} {r}"]
+                    qs += [f"clc 1 {x} {y}", f"iclc 1 {x} {y}"]
+            allc = " ".join(f"{x} {y}" for x in range(w) for y in range(h))
+            qs += [f"clc {w * h} {allc}", f"iclc {w * h} {allc}", "dump", "agents"]  # `agents`: tie only (`if not entry: continue` reads the truth value)
+            lines += qs + ["truth 0 b 1", "truth 1 l 1", "truth 2 l 0", "truth 3 b 0", "truth 4 l 0", "move 4 2 2"] + qs[::3] + ["dump"]
+            out.append(core.Scenario(lines, {"exhaustive": True}))
+    return out
+
+
 def gen_c09_grid(R, tier):
     kind = R.choice(KINDS)
     hexk = kind.startswith("hex")
@@ -1084,6 +1155,13 @@ def gen_c09_grid(R, tier):
                 b.add(f"place {a} {stack[0]} {stack[1]}")
             else:
                 b.add(f"move {a} {stack[0]} {stack[1]}")
+    # 40% of the scenarios with agents: some agents are objects with a truth value of their own (a dead animal, an empty depot):
+    # they occupy their cell all the same, and may change their truth value between queries
+    truths = bool(nag) and R.random() < 0.4
+    if truths:
+        for a in range(nag):
+            if R.random() < 0.6:
+                b.add(gen_truth(R, a))
     keys = []
     for _ in range(R.randint(8, 30)):
         k = R.random()
@@ -1092,6 +1170,9 @@ def gen_c09_grid(R, tier):
             if impl.agents[a].pos is not None:
                 # in-grid targets only: C09 scenarios must not depend on torus_adj (that is C08's business)
                 b.add(f"move {a} {R.randrange(w)} {R.randrange(h)}")
+            continue
+        if truths and k < 0.2:
+            b.add(gen_truth(R, R.randrange(nag)))
             continue
         if keys and R.random() < 0.3:
             pos, moore, ic, r = R.choice(keys)  # a repeated key: answered from the cache
